@@ -108,6 +108,11 @@ def run(tier, seed):
             whys[wk] = whys.get(wk, 0) + 1
             v.case(json.dumps(alt["bytes"]))
             judge_decode(v, val, why, ao["dec"], {**case, "bytes": alt["bytes"][:160]})
+            if ao["dec"]["ok"] and "trail_accepted" in ao:
+                if ao["trail_accepted"]:
+                    v.violation("bytes remaining after one complete term were not reported as an error", {**case, "encoding": why, "bytes": alt["bytes"][:160] + [0]})
+                elif ao["trail_rest"] != 1:
+                    v.violation("decode_with_trailing did not hand back the one remaining byte", {**case, "encoding": why, "bytes": alt["bytes"][:160] + [0], "rest": ao["trail_rest"]})
             if whys[wk] <= 1:
                 v.sample({"value": E.short(val, 100), "alternative": why, "bytes": alt["bytes"][:40]})
     v.cov["alternative_encodings"] = n_alts
